@@ -115,19 +115,32 @@ def build_corpus(tier, rng):
               Variant("Named", "named", [Field("u8", "f")], [dw("dw_u8_b"), ser("nm")]), Variant("Plain", "unit"),
               Variant("Two", "tuple", [Field("u8"), Field("String")], [dw("dwm::dw_u8_path")])]
         cands.append(("default-with", Item("E", vs, metas=([EM("sall", sty)] if sty else []) + ([EM("prefix", pf)] if pf else []))))
+    # a serialize literal that REPEATS the variant's own identifier (the usual way to exempt one variant from serialize_all) is a literal like
+    # any other: never re-cased, counted with its own length
+    for sty in ("snake_case", "lowercase", "SCREAMING-KEBAB-CASE", "camelCase", "title_case", None):
+        vs = [Variant("HTTP", "unit", [], [ser("HTTP")]), Variant("DarkGray", "tuple", [Field("u8")], [ser("dg"), ser("DarkGray")]),
+              Variant("MidTone", "named", [Field("u8", "f")], [ser("MidTone"), ser("a-much-longer-one")]), Variant("Plain", "unit"),
+              Variant("r#type", "unit", [], [ser("type")]), Variant("XMLHttp", "unit", [], [ser("XMLHttp"), ser("xml")])]
+        cands.append(("own-name-literal", Item("E", vs, metas=([EM("sall", sty)] if sty else []) + ([EM("prefix", "n.")] if sty == "camelCase" else []))))
     # TIES and REPEATS among the serialize literals of one variant: the LAST of the longest wins, and a repeated literal keeps its positions
     tie_sets = [["ab2", "cd2", "ab2"], ["x", "y"], ["aa", "bb", "aa", "cc"], ["one", "two", "one"], ["p", "long", "qq", "long", "rrrr", "ssss"], ["same", "same"],
-                ["é", "zz"], ["zz", "é"]]
-    for sty, pf in ((None, None), ("snake_case", "p.")):
+                ["é", "zz"], ["zz", "é"],
+                # case twins (always equally long): still the LAST one, whatever the variant's case-sensitivity is
+                ["tab", "TAB"], ["TAB", "tab"], ["Esc", "ESC", "esc"], ["up", "Down", "DOWN"], ["Ünï", "ünï", "ÜNÏ"]]
+    from vlib.defs import aci
+    for sty, pf, fl in ((None, None, 0), ("snake_case", "p.", 0), (None, None, 1), ("UPPERCASE", None, 2), (None, "q/", 3)):
         vs = []
         for i, st in enumerate(tie_sets):
             kind = ["unit", "tuple", "named"][i % 3]
             v = Variant("Tie%d" % i, kind, [Field("u8")] if kind == "tuple" else ([Field("u8", "f")] if kind == "named" else []))
             v.metas = [ser("%s%d" % (t, i)) for t in st]
+            if fl:      # the variant's own ascii_case_insensitive (bare / = true / = false), first or last in the list
+                f_ = [aci(True, explicit=False), aci(True, explicit=True), aci(False)][(fl + i) % 3]
+                v.metas = ([f_] + v.metas) if i % 2 else (v.metas + [f_])
             if i % 4 == 1:
                 v.groups = [1, 1]
             vs.append(v)
-        cands.append(("ties", Item("E", vs, metas=([EM("sall", sty)] if sty else []) + ([EM("prefix", pf)] if pf else []) + [EM("cis")])))
+        cands.append(("ties", Item("E", vs, metas=([EM("sall", sty)] if sty else []) + ([EM("prefix", pf)] if pf else []) + [EM("cis")] + ([EM("aci")] if fl == 3 else []))))
     from props import c01
     for i, it in enumerate(c01.nonascii()):
         if i % 3 == 1:
